@@ -1,0 +1,30 @@
+//go:build verif
+
+// Contracts for the OAuth/PKCE session cookie (property C27, reduced core). Comment-only.
+
+package vgirpc
+
+// packOAuthCookie: the MAC'd payload has the documented layout
+//   version(1) | createdAt u64le | len u16le, verifier | len, state | len, originalURL | len, returnTo
+// and every length prefix equals the length of the field it precedes (no truncation).
+//
+//@ func packOAuthCookie
+//@   property C27
+//@   nopanic
+//@   at call (binary.littleEndian).PutUint16#1 assert [len1] arg2 == len(cvBytes)
+//@   at call (binary.littleEndian).PutUint16#2 assert [len2] arg2 == len(stateBytes)
+//@   at call (binary.littleEndian).PutUint16#3 assert [len3] arg2 == len(urlBytes)
+//@   at call (binary.littleEndian).PutUint16#4 assert [len4] arg2 == len(rtBytes)
+//@   at call hash.Hash.Write assert [layout] len(arg1) == 17 + len(verifier) + len(state) + len(originalURL) + len(returnTo) &&
+//@       arg1[0] == 4 && u64at(arg1, 1) == wrap(createdAt, "uint64") && u16at(arg1, 9) == len(verifier) % 65536
+
+// unpackOAuthCookie: total on every cookie string (no panic); fields are parsed only after the
+// MAC over the payload verified; every length-prefixed field lies inside the payload.
+//
+//@ func unpackOAuthCookie
+//@   property C27
+//@   nopanic
+//@   at call (binary.littleEndian).Uint64 assert [macfirst] bytesEqual(receivedMAC, expectedMAC) && len(payload) >= 17
+//@   ensures [local_fields] err == nil ==> 11 + cvLen + 2 + stateLen + 2 + urlLen + 2 + rtLen <= len(payload) &&
+//@       len(verifier) == cvLen && len(state) == stateLen && len(originalURL) == urlLen && len(returnTo) == rtLen
+//@   ensures [local_version] err == nil ==> version == 4 && (maxAge > 0 ==> 0 <= age && age <= maxAge)
